@@ -105,6 +105,15 @@ func (e *Engine) translate(u *Unit) {
 		}
 	}
 	x.assumeGlobalInvs()
+	// recursion measure on entry (`decreases` on the function's own contract)
+	if u.Own != nil {
+		env := x.unitEnv(fr0, u.Own, x.st)
+		for _, cl := range u.Own.clauses("decreases") {
+			for _, e := range splitTop(cl.Text, ',') {
+				x.entryMeasure = append(x.entryMeasure, x.evalInt(env, parseExpr(e, cl.Where)))
+			}
+		}
+	}
 	// definitional axioms of abstract predicates (evaluated in the entry state)
 	for _, c := range u.contracts() {
 		env := x.unitEnv(fr0, c, x.st)
